@@ -471,7 +471,7 @@ var literalTable = map[string]string{
 }
 
 func ruleLiteral(c *Ctx) *RuleResult {
-	r := newResult("R-LITERAL", "literal decoding never indexes past the token: in ast.NewString, NewLongString, NewNumber, replaceEscapeSeq and toFloatToken every index or slice of the literal's bytes is proved in range from the length tests every path to it must have passed (len(x) > k, len(x) != 0, strings.HasPrefix(x, \"..\")), or is justified by the scanner's grammar for that token in a table with one reason per entry")
+	r := newResult("R-LITERAL", "literal decoding never indexes past the token: in ast.NewString, NewLongString, NewNumber, replaceEscapeSeq and toFloatToken every index or slice of the literal's bytes is proved in range from the length tests every path to it must have passed (len(x) > k, len(x) != 0, strings.HasPrefix(x, \"..\")), or is justified by the scanner's grammar for that token in a table with one reason per entry; and the decimal integer conversion refuses numerals from 2^63 upwards so that they become floats")
 	p := c.P
 	n := 0
 	for _, fname := range []string{"NewString", "NewLongString", "NewNumber", "replaceEscapeSeq", "toFloatToken"} {
@@ -561,6 +561,44 @@ func ruleLiteral(c *Ctx) *RuleResult {
 	}
 	r.count("index_and_slice_sites", n)
 	r.floor("index_and_slice_sites", 8)
+	// a decimal numeral that does not fit a signed 64-bit integer denotes a float: the
+	// base-10 integer conversion in NewNumber must refuse everything from 2^63 upwards
+	// (ParseUint with 63 bits, or ParseInt with 64), so that the float fallback is
+	// taken; base 16 wraps around by definition and may use all 64 bits
+	if nn := p.Func("ast", "NewNumber"); nn != nil {
+		nDec := 0
+		forEachInstr(nn, func(ins ssa.Instruction) {
+			call, ok := ins.(*ssa.Call)
+			if !ok {
+				return
+			}
+			cal := call.Call.StaticCallee()
+			if cal == nil || len(call.Call.Args) != 3 {
+				return
+			}
+			name := fullName(cal)
+			if name != "strconv.ParseUint" && name != "strconv.ParseInt" {
+				return
+			}
+			base, okb := constInt(call.Call.Args[1])
+			bits, okbits := constInt(call.Call.Args[2])
+			if !okb || base != 10 {
+				return
+			}
+			nDec++
+			want := int64(63)
+			if name == "strconv.ParseInt" {
+				want = 64
+			}
+			if okbits && bits == want {
+				r.ok(fmt.Sprintf("NewNumber: the decimal conversion %s(_, 10, %d) refuses 2^63 and above", name, bits))
+			} else {
+				r.fail("decimal-integer-wraps:ast.NewNumber", p.InstrPos(ins), fmt.Sprintf("NewNumber converts a decimal numeral with %s(_, 10, %d): values from 2^63 to 2^64-1 are accepted and stored in a signed integer, so the literal 9223372036854775808 denotes -9223372036854775808 instead of the float 9.2233720368547758e18 the manual prescribes (tonumber already answers the float)", name, bits))
+			}
+		})
+		r.count("decimal_integer_conversions", nDec)
+		r.floor("decimal_integer_conversions", 1)
+	}
 	return r
 }
 
